@@ -13,11 +13,42 @@ def build(ub, algebra_text):
     ub.out("// @@FILE prelude/dse.rs (part 1)\n" + pre)
     ub.emit_item(VS, "struct", "Entry", "", replace=[["<V: Clone>", "<V: Value>"], ["guard: Guard", "pub guard: Guard"], ["value: V", "pub value: V"]])
     ub.out("// @@FILE prelude/dse.rs (part 2)\n" + post)
+    ub.emit_raw("lemmas/dse.rs")
     ub.emit_fn(VS, "delete_entries", "stub")
     ub.emit_fn(VS, "coalesce_entries", "verify",
-               cfg={"receivers": {}, "field_store": True, "no_canary": True,
+               cfg={"receivers": {}, "field_store": True,
                     "replace": [["delete_list.sort_unstable();", "sort_unstable_usize(&mut delete_list);"],
                                 # type ascriptions only (rustc infers them from later uses; the loop invariant needs them earlier)
                                 ["let mut by_value = FxHashMap::", "let mut by_value: FxHashMap<V, usize> = FxHashMap::"],
                                 ["let mut delete_list = vec![];", "let mut delete_list: Vec<usize> = vec![];"]]})
+    # ---- operations of the summary that are NOT under contract (hash sets, iterator adapters, real BDD calls): the claim does not
+    # cover them; their text is pinned so that a change is reported as undecided instead of passing silently
+    for fn_name, impl in (("apply_bin_op", "impl<V: Value> ValueSummary<V>"), ("new", "impl<V: Value> ValueSummary<V>"),
+                          ("apply_ite", "impl<V: Value + ToGuard> ValueSummary<V>"), ("to_guard", "impl<V: Value + ToGuard> ValueSummary<V>"),
+                          ("import_into_guard", "impl<V: Value + ToGuard> ValueSummary<V>")):
+        ub.pin_assumed_fn(VS, fn_name, impl, "not under contract (outside the dialect); pinned by hash")
+    # ---- apply_ite: the merge loops
+    import re
+    ub.emit_item(VS, "struct", "ValueSummary", "", replace=[["entries:", "pub entries:"]])
+    ub.emit_fn(VS, "len", "verify", impl="impl<V: Value> ValueSummary<V>", spec_key="ValueSummary::len", cfg={"receivers": {}, "no_canary": True})
+    item = ub.src(VS).find_fn("apply_ite", "impl<V: Value + ToGuard> ValueSummary<V>")
+    a = item.body.find("let mut entries = Vec::with_capacity(")
+    b = item.body.rfind("ValueSummary { entries }")
+    if a < 0 or b < a:
+        from vx.extract import AnchorError
+        raise AnchorError("apply_ite: merge statements not found")
+    frag = item.body[a:b]
+    frag = re.sub(r"//[^\n]*", "", frag)
+    # name the two for-loop iterators (ghost names only) and give `entries` its element type
+    n = [0]
+    def name_it(m):
+        n[0] += 1
+        return f"for {m.group(1)} in it__{n[0]}: "
+    frag = re.sub(r"\bfor (\w+) in ", name_it, frag)
+    frag = frag.replace("let mut entries = Vec::with_capacity(", "let mut entries: Vec<Entry<V>> = Vec::with_capacity(")
+    line = item.line + item.body[:a].count("\n")
+    post = ("proof { lemma_ite_merge(old(gc), gc, t0, f0, tru_cond, fals_cond, entries@); }\n    entries")
+    ub.emit_synth("ite_merge", "ite_merge",
+                  "fn ite_merge<V: Value>(gc: &mut GuardCtx, tru: ValueSummary<V>, fals: ValueSummary<V>, tru_cond: Guard, fals_cond: Guard) -> Vec<Entry<V>>",
+                  "{ " + frag + post + " }", VS, line, {"receivers": {}}, note="the merge statements of apply_ite, verbatim (iterators named)")
     ub.out("} // verus!\nfn main() {}\n")
